@@ -665,14 +665,6 @@ ASSUMED['Table._cast_metadata'] = (
     'Table._cast_metadata replaces each metadata tuple by a tuple of defaultdicts with the same items (equal entry by '
     'entry), or by None when no entry holds anything; it touches nothing else (its body - nested closures over '
     'collections.defaultdict - is outside the verified subset; the bounded tier evaluates it)')
-contract(F, 'Table._cast_metadata', tier='A', props=[], kind='assumed',
-    types={'self': 'Obj:Table'},
-    ensures=["isnone(self._sample_metadata) or same_seq(self._sample_metadata, old(self._sample_metadata))",
-             "isnone(self._observation_metadata) or same_seq(self._observation_metadata, old(self._observation_metadata))",
-             "implies(isnone(old(self._sample_metadata)), isnone(self._sample_metadata))",
-             "implies(isnone(old(self._observation_metadata)), isnone(self._observation_metadata))"],
-    modifies=['self._sample_metadata', 'self._observation_metadata'], assumes=[ASSUMED['Table._cast_metadata']])
-
 contract(F, 'Table.filter', tier='A', props=['C08', 'C05', 'C07', 'C20'],
     types={'self': 'Obj:Table', 'ids_to_keep': 'Val', 'axis': 'Str', 'invert': 'Bool', 'inplace': 'Bool'},
     requires=WF_T,
@@ -1384,6 +1376,11 @@ contract(F, 'Table.__init__', tier='A', props=['C17', 'C05'],
         "isnone(self._observation_metadata) or same_seq(self._observation_metadata, observation_metadata)",
         "implies(isnone(sample_metadata), isnone(self._sample_metadata))",
         "implies(isnone(observation_metadata), isnone(self._observation_metadata))",
+        # metadata that was given is dropped only when it has one entry per id and no entry holds anything
+        "implies(isnone(self._sample_metadata) and not isnone(sample_metadata), len(sample_metadata) == len(sample_ids) "
+        "        and all(entry_empty(sample_metadata[q]) for q in range(len(sample_metadata))))",
+        "implies(isnone(self._observation_metadata) and not isnone(observation_metadata), len(observation_metadata) == len(observation_ids) "
+        "        and all(entry_empty(observation_metadata[q]) for q in range(len(observation_metadata))))",
         # lookups: rebuilt from the ids unless handed in
         "is_index_of(self._sample_index, self._sample_ids) and is_index_of(self._obs_index, self._observation_ids)",
         "self.type == type and self.table_id == table_id",
@@ -1415,3 +1412,205 @@ def _tw_global_dict(self, eng, st, n):
 
 _prev_global_dict = TableWorld.global_name
 TableWorld.global_name = _tw_global_dict
+
+
+# ---- add_metadata (C18): exactly the named ids and keys ----------------------------------------------------------------
+# Per-id metadata is a tuple of dicts held by value ('TupD'): sound because after the cast to defaultdicts the entries
+# of a table's metadata are pairwise distinct objects.
+def _tw_make_object_md(self, eng, st, name, cls):
+    if cls == 'TableMD':
+        ref = _prev_make_object_md(self, eng, st, name, 'Table')
+        n = st.node(ref)
+        f = dict(n.fields)
+        f['_sample_metadata'] = eng.make_input(st, name + '_smd', 'Opt[TupD]')
+        f['_observation_metadata'] = eng.make_input(st, name + '_omd', 'Opt[TupD]')
+        st.setnode(ref, Obj('Table', f))
+        return ref
+    return _prev_make_object_md(self, eng, st, name, cls)
+
+
+_prev_make_object_md = TableWorld.make_object
+TableWorld.make_object = _tw_make_object_md
+
+
+def _entries_same(eng, st, a, b):
+    """z3 Bool: two metadata values hold the same entries (tuple of opaque values, or tuple of dicts by value)"""
+    da, db = eng.as_dict(st, a), eng.as_dict(st, b)
+    if da is not None and db is not None and da[5] and db[5]:
+        na = eng.length(st, a).term
+        nb = eng.length(st, b).term
+        p, k = fresh('p', I), fresh('k', Str)
+        return z3.And(na == nb, z3.ForAll([p, k], z3.Implies(
+            z3.And(0 <= p, p < na),
+            z3.And(da[4][p][k] == db[4][p][k], z3.Implies(da[4][p][k], da[3][p][k] == db[3][p][k]))),
+            patterns=[da[4][p][k]]))
+    return eng.equal(st, a, b)
+
+
+def _tw_spec_md(self, eng, st, n, e, bound):
+    if n == 'same_entries':
+        a, b = eng.sev(e.args[0], st, bound), eng.sev(e.args[1], st, bound)
+        a = a.val if a.kind == 'opt' else a
+        b = b.val if b.kind == 'opt' else b
+        return VBool(_entries_same(eng, st, a, b))
+    if n == 'entry_empty':
+        # a metadata entry that holds nothing: None or an empty dict (the constructor's test, on an opaque value)
+        v = eng.sev(e.args[0], st, bound)
+        if v.kind == 'none':
+            return VBool(z3.BoolVal(True))
+        t = self.to_val(eng, v)
+        return VBool(z3.Or(self.Val.is_vnone(t),
+                           z3.And(z3.Function('val_is_dict', self.Val, B)(t), z3.Not(self.val_truth(t)))))
+    if n == 'has_none':
+        # some position of a metadata tuple holds None instead of a dict
+        a = eng.sev(e.args[0], st, bound)
+        a = a.val if a.kind == 'opt' else a
+        nones = getattr(st.node(a), 'nones', None) if a.kind == 'ref' else getattr(a, 'nones', None)
+        if nones is None:
+            return VBool(z3.BoolVal(False))
+        p = fresh('p', I)
+        return VBool(z3.Exists([p], z3.And(0 <= p, p < eng.length(st, a).term, nones[p])))
+    if n == 'all_empty':
+        # no entry of the metadata holds anything
+        a = eng.sev(e.args[0], st, bound)
+        a = a.val if a.kind == 'opt' else a
+        d = eng.as_dict(st, a)
+        if d is None or not d[5]:
+            return VBool(fresh('all_empty', B))       # opaque entries: unknown
+        p, k = fresh('p', I), fresh('k', Str)
+        return VBool(z3.ForAll([p, k], z3.Implies(z3.And(0 <= p, p < eng.length(st, a).term), z3.Not(d[4][p][k])),
+                               patterns=[d[4][p][k]]))
+    return _prev_spec_md(self, eng, st, n, e, bound)
+
+
+_prev_spec_md = TableWorld.spec_call
+TableWorld.spec_call = _tw_spec_md
+
+_DISTINCT = "all(implies(p < q, {ids}[p] != {ids}[q]) for p in range(len({ids})) for q in range(len({ids})))"
+
+
+def _add_md_clauses(M, IDS, pref=''):
+    OM = "old(%s)" % M
+    upd = "({ids}[p] in md and k in md[{ids}[p]])".format(ids=IDS)
+    return [
+        # the axis had metadata: every key of the mapping entry of an id is set / overwritten on that id, every other key
+        # and every other id keeps what it had (absent afterwards only when nothing is left anywhere)
+        "implies(%s not isnone(%s), isnone(%s) or (len(%s) == len(%s) and "
+        "all(all((k in %s[p]) == ((k in %s[p]) or %s) and "
+        "        implies(k in %s[p], %s[p][k] == (md[%s[p]][k] if %s else %s[p][k])) for k in strs()) for p in range(len(%s)))))"
+        % (pref, OM, M, M, IDS, M, OM, upd, M, M, IDS, upd, OM, IDS),
+        # the axis had none: the ids that occur in the mapping get exactly their mapping entry, the others nothing
+        "implies(%s isnone(%s), isnone(%s) or (len(%s) == len(%s) and "
+        "all(all((k in %s[p]) == %s and implies(k in %s[p], %s[p][k] == md[%s[p]][k]) for k in strs()) for p in range(len(%s)))))"
+        % (pref, OM, M, M, IDS, M, upd, M, M, IDS, IDS),
+        # metadata disappears only when no id would hold anything
+        "implies(%s isnone(%s), all(all(not ((not isnone(%s) and k in %s[p]) or %s) for k in strs()) for p in range(len(%s))))"
+        % (pref, M, OM, OM, upd, IDS),
+    ]
+
+
+contract(F, 'Table._cast_metadata', tier='A', props=[], kind='assumed',
+    types={'self': 'Obj:Table'},
+    ensures=["isnone(self._sample_metadata) or same_entries(self._sample_metadata, old(self._sample_metadata))",
+             "isnone(self._observation_metadata) or same_entries(self._observation_metadata, old(self._observation_metadata))",
+             "implies(isnone(old(self._sample_metadata)), isnone(self._sample_metadata))",
+             "implies(isnone(old(self._observation_metadata)), isnone(self._observation_metadata))",
+             "implies(isnone(self._sample_metadata) and not isnone(old(self._sample_metadata)), all_empty(old(self._sample_metadata)))",
+             "implies(isnone(self._observation_metadata) and not isnone(old(self._observation_metadata)), all_empty(old(self._observation_metadata)))",
+             # every entry is a (default)dict afterwards, never None
+             "(isnone(self._sample_metadata) or not has_none(self._sample_metadata)) "
+             "and (isnone(self._observation_metadata) or not has_none(self._observation_metadata))"],
+    modifies=['self._sample_metadata', 'self._observation_metadata'], assumes=[ASSUMED['Table._cast_metadata']])
+
+def _add_md_inv(ax, M, IDS):
+    # after the first __i0 items of the mapping: entry p holds what it had, overlaid with the mapping entry of its id when
+    # that item has been visited
+    OM = "old(%s)" % M
+    seen = "({ids}[p] in md and posof(md, {ids}[p]) < __i0 and k in md[{ids}[p]])".format(ids=IDS)
+    return ("implies(axis == '%s', len(metadata) == len(%s) and "
+            "all(all((k in metadata[p]) == ((k in %s[p]) or %s) and "
+            "        implies(k in metadata[p], metadata[p][k] == (md[%s[p]][k] if %s else %s[p][k])) for k in strs()) "
+            "    for p in range(len(%s))))" % (ax, IDS, OM, seen, IDS, seen, OM, IDS))
+
+
+contract(F, 'Table.add_metadata', tier='A', props=['C18'],
+    types={'self': 'Obj:TableMD', 'md': 'Dict[Str,Dict[Str,Val]]', 'axis': 'Str'},
+    requires=["is_index_of(self._sample_index, self._sample_ids) and is_index_of(self._obs_index, self._observation_ids)",
+              _DISTINCT.format(ids='self._sample_ids'), _DISTINCT.format(ids='self._observation_ids'),
+              "isnone(self._sample_metadata) or len(self._sample_metadata) == len(self._sample_ids)",
+              "isnone(self._observation_metadata) or len(self._observation_metadata) == len(self._observation_ids)"],
+    ensures=_add_md_clauses('self._sample_metadata', 'self._sample_ids', "axis == 'sample' and")
+            + _add_md_clauses('self._observation_metadata', 'self._observation_ids', "axis == 'observation' and")
+            + [
+        # every id has a dict afterwards (possibly empty), never None
+        "(isnone(self._sample_metadata) or not has_none(self._sample_metadata)) "
+        "and (isnone(self._observation_metadata) or not has_none(self._observation_metadata))",
+        # the other axis keeps its metadata
+        "implies(axis == 'sample', isnone(self._observation_metadata) or same_entries(self._observation_metadata, old(self._observation_metadata)))",
+        "implies(axis == 'observation', isnone(self._sample_metadata) or same_entries(self._sample_metadata, old(self._sample_metadata)))",
+    ],
+    raises={'UnknownAxisError': ["not (%s)" % AX]},
+    modifies=['self._sample_metadata', 'self._observation_metadata', 'self._sample_metadata[*]', 'self._observation_metadata[*]'],
+    loops={0: dict(header="for id_, md_entry in md.items()", invariant=[
+        "axis == 'sample' or axis == 'observation'",
+    ] + [_add_md_inv(ax, M, IDS) for ax, M, IDS in (('sample', 'self._sample_metadata', 'self._sample_ids'),
+                                                     ('observation', 'self._observation_metadata', 'self._observation_ids'))])})
+
+ASSUMED['metadata-by-value'] = ('per-id metadata is modelled as a tuple of dicts held by value; this is the behaviour of the real '
+                                'tuple of dict objects as long as its entries are pairwise distinct objects, which '
+                                'Table._cast_metadata establishes (every entry becomes a fresh defaultdict)')
+
+
+# ---- del_metadata (C18): exactly the named keys, on the chosen axes ---------------------------------------------------
+def _del_md_clauses(M, on):
+    OM = "old(%s)" % M
+    gone = "(not isnone(keys) and k in some(keys))"
+    return [
+        # on a chosen axis: every named key is gone from every id, every other key keeps its value; the metadata is absent
+        # afterwards only when no id holds anything any more (or when all of it was to be deleted)
+        "implies(%s and not isnone(%s) and not isnone(keys), isnone(%s) or (len(%s) == len(%s) and "
+        "all(all((k in %s[p]) == ((k in %s[p]) and not %s) and implies(k in %s[p], %s[p][k] == %s[p][k]) "
+        "        for k in strs()) for p in range(len(%s)))))" % (on, OM, M, M, OM, M, OM, gone, M, M, OM, OM),
+        "implies(%s and not isnone(%s) and not isnone(keys) and isnone(%s), "
+        "        all(all(not ((k in %s[p]) and not %s) for k in strs()) for p in range(len(%s))))" % (on, OM, M, OM, gone, OM),
+        "implies(%s and isnone(keys), isnone(%s))" % (on, M),
+        "implies(isnone(%s), isnone(%s))" % (OM, M),
+        # an axis that was not chosen keeps its metadata object and contents
+        "implies(not (%s), %s is oldref(%s) and (isnone(%s) or same_entries(%s, %s)))" % (on, M, M, M, M, OM),
+    ]
+
+
+def _del_inv1(ax, M, OTHER):
+    M1, O1 = "at('loop1', %s)" % M, "at('loop1', %s)" % OTHER
+    return ("implies(ax == '%s', not isnone(%s) and len(%s) == len(%s) and "
+            "all(all((kk in %s[p]) == ((kk in %s[p]) and not (p < __i1 and kk in some(keys))) and "
+            "        implies(kk in %s[p], %s[p][kk] == %s[p][kk]) for kk in strs()) for p in range(len(%s))) and "
+            "(isnone(%s) or same_entries(%s, %s)))"
+            % (ax, M, M, M1, M, M1, M, M, M1, M, OTHER, OTHER, O1))
+
+
+def _del_inv2(ax, M, OTHER):
+    M2, O2 = "at('loop2', %s)" % M, "at('loop2', %s)" % OTHER
+    return ("implies(ax == '%s', not isnone(%s) and len(%s) == len(%s) and 0 <= __i1 and __i1 < len(%s) and "
+            "all(all((kk in %s[p]) == ((kk in %s[p]) and not (p == __i1 and any(some(keys)[u] == kk for u in range(0, __i2)))) and "
+            "        implies(kk in %s[p], %s[p][kk] == %s[p][kk]) for kk in strs()) for p in range(len(%s))) and "
+            "(isnone(%s) or same_entries(%s, %s)))"
+            % (ax, M, M, M2, M, M, M2, M, M, M2, M, OTHER, OTHER, O2))
+
+
+contract(F, 'Table.del_metadata', tier='A', props=['C18'],
+    types={'self': 'Obj:TableMD', 'keys': 'Opt[List[Str]]', 'axis': 'Str'},
+    requires=["isnone(self._sample_metadata) or len(self._sample_metadata) == len(self._sample_ids)",
+              "isnone(self._observation_metadata) or len(self._observation_metadata) == len(self._observation_ids)"],
+    ensures=_del_md_clauses('self._sample_metadata', "(axis == 'sample' or axis == 'whole')")
+            + _del_md_clauses('self._observation_metadata', "(axis == 'observation' or axis == 'whole')"),
+    raises={'UnknownAxisError': ["not (%s or axis == 'whole')" % AX]},
+    modifies=['self._sample_metadata', 'self._observation_metadata', 'self._sample_metadata[*]', 'self._observation_metadata[*]'],
+    loops={1: dict(header="for i, md in zip(self.ids(axis=ax), self.metadata(axis=ax))",
+                   invariant=[_del_inv1('sample', 'self._sample_metadata', 'self._observation_metadata'),
+                              _del_inv1('observation', 'self._observation_metadata', 'self._sample_metadata'),
+                              "not isnone(keys) and (ax == 'sample' or ax == 'observation')"]),
+           2: dict(header="for k in keys",
+                   invariant=[_del_inv2('sample', 'self._sample_metadata', 'self._observation_metadata'),
+                              _del_inv2('observation', 'self._observation_metadata', 'self._sample_metadata'),
+                              "not isnone(keys) and (ax == 'sample' or ax == 'observation')"])})
